@@ -374,6 +374,8 @@ pub fn run(ctx: &Ctx) {
     let n = ctx.tier.pick(5000, 250_000);
     ctx.explore("forgeries", RULE, n, || strategy(12), oracle);
     ctx.replay_known("forgeries", |c: &Case| e1::without_exclusions(|| oracle(c)));
+    let n = ctx.tier.pick(800, 40_000);
+    ctx.explore("perm-row-cells", RULE_PERM, n, perm_strategy, oracle_perm);
     // complete single-fault enumeration for a fixed set of small generated circuits
     let programs = ctx.tier.pick(6, 120) as usize;
     let cases = enumerate_single_faults(ctx.seed, programs);
@@ -446,4 +448,130 @@ fn table_sizes<C: Pv>(prog: &Prog) -> Option<(usize, usize, usize, usize, usize)
         rs,
         rc,
     ))
+}
+
+// ---------------------------------------------------------------------------------------------
+// Permutation rows: "every non-primitive row is the true function of its inputs"
+// ---------------------------------------------------------------------------------------------
+
+/// One cell of one Poseidon2 table row is edited in the trace a prover commits (the witness
+/// slots are left alone, so the row no longer is the permutation of the values its input
+/// slots hold); circuits are the challenger circuits of C05's history generator.
+#[derive(Clone, Debug, Serialize, Deserialize, Hash)]
+pub struct PermCase {
+    pub history: crate::checks::c05::History,
+    pub row: u16,
+    pub limb: u16,
+    pub delta: u64,
+}
+
+pub const RULE_PERM: &str = "challenger circuits (C05 histories, degree-4 Poseidon2 configurations) executed honestly; \
+one base-field input cell of one permutation-table row is changed in the committed trace (delta != 0) while all witness \
+slots keep their values; proven and verified. Oracle: every input limb of these rows is exposed on the witness bus, so \
+the row is no longer the permutation of its input slots and the proof must be rejected. Non-trivial = every case; \
+distinct on (configuration, row position class, limb)";
+
+fn check_perm<K: crate::checks::c05::Kit>(c: &PermCase) -> Report {
+    use crate::checks::c05::{self, PowMode};
+    use p3_circuit::ops::Poseidon2Config;
+    use p3_circuit::ops::poseidon2_perm::Poseidon2Trace;
+    use p3_field::PrimeCharacteristicRing;
+    type Bf<K> = <<K as c05::Kit>::F as crate::fields::Fc>::BF;
+    let pcfg = match K::NAME {
+        "p2-babybear-d4-w16" => Poseidon2Config::BABY_BEAR_D4_W16,
+        "p2-koalabear-d4-w16" => Poseidon2Config::KOALA_BEAR_D4_W16,
+        _ => return Report::discard("configuration has no prover table support in the harness"),
+    };
+    let built = match c05::build_from_history::<K>(&c.history, PowMode::TranscriptOnly) {
+        Ok(b) => b,
+        Err((sig, msg)) => return Report::fail(format!("C04/perm-build:{sig}"), msg),
+    };
+    let c05::Built { builder, publics, .. } = built;
+    let circuit = match builder.build() {
+        Ok(x) => x,
+        Err(e) => return Report::fail("C04/build-error", format!("{e:?}")),
+    };
+    let mut runner = circuit.runner();
+    if runner.set_public_inputs(&publics).is_err() {
+        return Report::discard("inputs rejected");
+    }
+    let Ok(mut traces) = runner.run() else {
+        return Report::discard("honest run failed (C05's business)");
+    };
+    let ty = p3_circuit::ops::NpoTypeId::poseidon2_perm(pcfg);
+    let Some(pt) = traces.non_primitive_trace::<Poseidon2Trace<Bf<K>>>(&ty).cloned() else {
+        return Report::discard("history performs no permutation");
+    };
+    if pt.operations.is_empty() {
+        return Report::discard("history performs no permutation");
+    }
+    let mut pt = pt;
+    let r = pick(c.row, pt.operations.len());
+    let k = pick(c.limb, pt.operations[r].input_values.len());
+    let d = 1 + c.delta % (<<K as c05::Kit>::F as crate::fields::Fc>::p() - 1);
+    pt.operations[r].input_values[k] += Bf::<K>::from_u64(d);
+    let nrows = pt.operations.len();
+    traces.non_primitive_traces.insert(ty, Box::new(pt));
+    let pk = p3_circuit_prover::TablePacking::new(1, 1);
+    let npo = NpoSel {
+        recompose: c.history.recompose,
+        debug_lookups: false,
+        poseidon2: Some(pcfg),
+    };
+    let setup = match <K::F as Pv>::setup(&circuit, &pk, &npo) {
+        Ok(s) => s,
+        Err(e) => return Report::fail(format!("C04/perm-setup-failed:{}", e.kind()), e.msg().chars().take(200).collect::<String>()),
+    };
+    let accepted = match <K::F as Pv>::prove(&setup, &traces) {
+        Ok(p) => <K::F as Pv>::verify(&setup, &p).is_ok(),
+        Err(_) => false,
+    };
+    let pos = if r == 0 { "first" } else if r + 1 == nrows { "last" } else { "middle" };
+    let rep = Report::pass()
+        .class(format!("kit:{}", K::NAME))
+        .class(format!("row:{pos}"))
+        .class(format!("limb:{k}"))
+        .nontrivial(true)
+        .key(hash_of(&(K::NAME, pos, k, c.history.recompose)));
+    if accepted {
+        let mut rr = rep;
+        rr.verdict = Verdict::Fail {
+            sig: format!("C04/perm-row-not-bound-to-input-slots:limb{k}"),
+            msg: format!("permutation row {r}/{nrows}: input cell {k} changed by {d} without changing any witness slot, proof accepted"),
+        };
+        return rr;
+    }
+    rep.class("outcome:rejected")
+}
+
+struct PermV<'a>(&'a PermCase);
+impl crate::checks::c05::KitVisitor for PermV<'_> {
+    type Out = Report;
+    fn visit<K: crate::checks::c05::Kit>(self) -> Report {
+        check_perm::<K>(self.0)
+    }
+}
+
+pub fn oracle_perm(c: &PermCase) -> Report {
+    crate::checks::c05::with_kit(c.history.cfg, PermV(c))
+}
+
+pub fn perm_strategy() -> impl Strategy<Value = PermCase> {
+    (
+        crate::checks::c05::history_strategy(crate::checks::c05::GenOpts {
+            min_len: 2,
+            max_len: 12,
+            cfgs: vec![0, 1],
+            invalid_pow: false,
+        }),
+        any::<u16>(),
+        any::<u16>(),
+        any::<u64>(),
+    )
+        .prop_map(|(history, row, limb, delta)| PermCase {
+            history,
+            row,
+            limb,
+            delta,
+        })
 }
